@@ -37,6 +37,83 @@ type c19Data struct {
 	r      *scRender
 	dsStep []int          // documentSymbol per file
 	wsStep map[string]int // workspace/symbol per queried name
+	inGF   []bool         // per item: inside the body of a global function statement (function g / g.f / g:m)
+	msStep [][2]int       // (occurrence index of a method name, step of the workspace/symbol query for its qualified name)
+}
+
+// inGlobalFuncBody computes, per item, whether it lies inside the body of a global function statement: function g(..) or a
+// member function of a global table, function g.f(..) / g:m(..).
+func inGlobalFuncBody(items []scItem) []bool {
+	out := make([]bool, len(items))
+	var stack []bool // per open block: does it (or an enclosing block) belong to a global function statement
+	for i, it := range items {
+		cur := len(stack) > 0 && stack[len(stack)-1]
+		out[i] = cur
+		switch it.K {
+		case "file":
+			stack = nil
+		case "do", "while", "if", "repeat", "fornum", "forin", "lfunc", "lefunc":
+			stack = append(stack, cur)
+		case "gfunc":
+			stack = append(stack, cur || it.Nb == 0)
+		case "meth":
+			stack = append(stack, cur || it.Tb == 0)
+		case "end", "until", "untilc":
+			if len(stack) > 0 {
+				stack = stack[:len(stack)-1]
+			}
+		}
+	}
+	return out
+}
+
+// methSpecified: a member function of a global table name that has no top-level definition in the workspace is left open
+// (the program cannot run; there is no table the member could be listed under); so is a member of a name that holds a
+// function.
+func (d *c19Data) methSpecified(o *occ) bool {
+	it := d.tc.Items[o.Item]
+	if it.Tb != 0 {
+		// a local that holds a function value is not a table of functions
+		if dc := d.r.DeclAt[it.Tb]; dc != nil && (dc.Kind == "lfunc" || dc.Kind == "lefunc") {
+			return false
+		}
+		return true
+	}
+	for k := range d.r.Occ {
+		if g := &d.r.Occ[k]; g.Role == "gdef" && g.Kind == "gfunc" && g.Name == d.methTable(o) {
+			return false
+		}
+	}
+	for _, g := range d.tc.GDefs {
+		if c14Global(g.N) == d.methTable(o) && g.Top {
+			return true
+		}
+	}
+	return false
+}
+
+// methForeign: the member function's table is a global whose top-level definitions all lie in other files.
+func (d *c19Data) methForeign(o *occ) bool {
+	it := d.tc.Items[o.Item]
+	if it.Tb != 0 {
+		return false
+	}
+	for _, g := range d.tc.GDefs {
+		if c14Global(g.N) == d.methTable(o) && g.Top && g.File == o.File+1 {
+			return false
+		}
+	}
+	return true
+}
+
+// methTable returns the spelling of the table in the header of the method definition whose name occurrence is o.
+func (d *c19Data) methTable(o *occ) string {
+	for k := range d.r.Occ {
+		if t := &d.r.Occ[k]; t.Item == o.Item && t.Slot == "t" {
+			return t.Name
+		}
+	}
+	return ""
 }
 
 func c19Build(id int, raw json.RawMessage) *Job {
@@ -45,12 +122,32 @@ func c19Build(id int, raw json.RawMessage) *Job {
 		return nil
 	}
 	items := c14Rename(&tc)
+	// locals that are never assigned again may carry a <const> attribute (every second one, by position); every method
+	// definition gets its own name
+	written := map[int]bool{}
+	for _, it := range items {
+		switch it.K {
+		case "assign", "gfunc":
+			written[it.Nb] = true
+		case "assign2":
+			written[it.Nb], written[it.Mb] = true, true
+		}
+	}
+	for i := range items {
+		it := &items[i]
+		if it.K == "local" && it.Fl != "none" && !written[it.ID] && i%2 == 0 {
+			it.Attr = true
+		}
+		if it.K == "meth" {
+			it.MName = fmt.Sprintf("mm%d", i)
+		}
+	}
 	r := scRenderProg(items)
 	pc := &proto.Case{ID: id, Files: r.files(), Init: json.RawMessage(allOnLocal)}
 	for i, f := range r.Files {
 		pc.Steps = append(pc.Steps, openStep(f, r.Text[i]))
 	}
-	d := &c19Data{tc: &tc, r: r, wsStep: map[string]int{}}
+	d := &c19Data{tc: &tc, r: r, wsStep: map[string]int{}, inGF: inGlobalFuncBody(items)}
 	for _, f := range r.Files {
 		pc.Steps = append(pc.Steps, proto.Step{M: "textDocument/documentSymbol", P: json.RawMessage(fmt.Sprintf(`{"textDocument":{"uri":"file://$ROOT/%s"}}`, f))})
 		d.dsStep = append(d.dsStep, len(pc.Steps)-1)
@@ -62,6 +159,12 @@ func c19Build(id int, raw json.RawMessage) *Job {
 				pc.Steps = append(pc.Steps, proto.Step{M: "workspace/symbol", P: json.RawMessage(fmt.Sprintf(`{"query":%s}`, jstr(o.Name)))})
 				d.wsStep[o.Name] = len(pc.Steps) - 1
 			}
+		}
+		if o.Role == "mdef" {
+			// a member function is asked for by its qualified name, written with a dot
+			q := d.methTable(o) + "." + o.Name
+			pc.Steps = append(pc.Steps, proto.Step{M: "workspace/symbol", P: json.RawMessage(fmt.Sprintf(`{"query":%s}`, jstr(q)))})
+			d.msStep = append(d.msStep, [2]int{i, len(pc.Steps) - 1})
 		}
 	}
 	return &Job{PC: pc, Data: d}
@@ -136,6 +239,36 @@ func c19Judge(c *Ctx, j *Job, res *proto.Result) {
 					devs["Dev_OutlineOmitsNestedFunctions"] = fmt.Sprintf("%s: function %s declared inside a function body is not in the outline", f, o.Name)
 				}
 				continue
+			case o.Role == "mdef":
+				// function t.f / t:m : listed under its qualified name (either separator), range containing the member name
+				if !d.methSpecified(o) {
+					continue
+				}
+				var es []docSym
+				for _, sep := range []string{".", ":"} {
+					es = append(es, byName[d.methTable(o)+sep+o.Name]...)
+				}
+				es = append(es, byName[o.Name]...)
+				if len(es) == 0 {
+					if it.InFn {
+						devs["Dev_OutlineOmitsNestedFunctions"] = fmt.Sprintf("%s: member function %s.%s defined inside a function body is not in the outline", f, d.methTable(o), o.Name)
+					} else if d.methForeign(o) {
+						devs["Dev_OutlineOmitsMembersOfForeignTables"] = fmt.Sprintf("%s: member function %s.%s is not in the outline of the file that defines it; its table is defined in another file", f, d.methTable(o), o.Name)
+					} else {
+						prob = append(prob, fmt.Sprintf("%s: member function %s.%s (line %d) is missing from the outline", f, d.methTable(o), o.Name, o.Line))
+					}
+					continue
+				}
+				okm := false
+				for _, e := range es {
+					if rangeContains(e.Range, o.Line, o.Col, len(o.Name)) {
+						okm = true
+					}
+				}
+				if !okm {
+					prob = append(prob, fmt.Sprintf("%s: outline range %v of member function %s.%s does not contain its declaring identifier at %d:%d", f, es[0].Range, d.methTable(o), o.Name, o.Line, o.Col))
+				}
+				continue
 			case o.Role == "gdef" && !seenG[o.Name]:
 				required, what = true, "global"
 				if o.Kind == "gfunc" {
@@ -197,7 +330,7 @@ func c19Judge(c *Ctx, j *Job, res *proto.Result) {
 			allInGF := true
 			for k := range d.r.Occ {
 				oo := &d.r.Occ[k]
-				if oo.Name == name && (oo.Role == "decl" || oo.Role == "gdef") && !(oo.Role == "decl" && d.tc.Items[oo.Item].InGF) {
+				if oo.Name == name && (oo.Role == "decl" || oo.Role == "gdef") && !(oo.Role == "decl" && d.inGF[oo.Item]) {
 					allInGF = false
 				}
 			}
@@ -210,6 +343,36 @@ func c19Judge(c *Ctx, j *Job, res *proto.Result) {
 				names = append(names, fmt.Sprintf("%s@%d:%d", w.Name, w.Location.Range.Start.Line, w.Location.Range.Start.Character))
 			}
 			prob = append(prob, fmt.Sprintf("workspace/symbol %q returns no entry located at a declaration of that name (entries: %s)", name, strings.Join(names, " ")))
+		}
+	}
+	for _, ms := range d.msStep {
+		o := &d.r.Occ[ms[0]]
+		if !d.methSpecified(o) {
+			continue
+		}
+		tbl := d.methTable(o)
+		var ws []wsSym
+		if rp := res.Steps[ms[1]].Reply; len(rp) > 0 && string(rp) != "null" {
+			json.Unmarshal(rp, &ws)
+		}
+		found := false
+		var names []string
+		for _, w := range ws {
+			names = append(names, fmt.Sprintf("%s@%d:%d", w.Name, w.Location.Range.Start.Line, w.Location.Range.Start.Character))
+			if w.Name != tbl+"."+o.Name && w.Name != tbl+":"+o.Name && w.Name != o.Name {
+				continue
+			}
+			f := strings.TrimPrefix(strings.TrimPrefix(w.Location.URI, "file://"), res.Root+"/")
+			if d.r.Files[o.File] == f && rangeContains(w.Location.Range, o.Line, o.Col, len(o.Name)) {
+				found = true
+			}
+		}
+		if !found && d.inGF[o.Item] {
+			devs["Dev_WorkspaceSymbolSkipsLocalsOfGlobalFunctions"] = fmt.Sprintf("workspace/symbol %q finds nothing; it is a member function defined inside a global function's body", tbl+"."+o.Name)
+			continue
+		}
+		if !found {
+			prob = append(prob, fmt.Sprintf("workspace/symbol %q returns no entry located at the definition of that member function at %s %d:%d (entries: %s)", tbl+"."+o.Name, d.r.Files[o.File], o.Line, o.Col, strings.Join(names, " ")))
 		}
 	}
 	for dv, ex := range devs {
@@ -235,10 +398,11 @@ func c19Judge(c *Ctx, j *Job, res *proto.Result) {
 }
 
 func checkC19(c *Ctx) {
-	c.Rep.Rule = "Scope.tla programs rendered with unique declaration names; documentSymbol of every file and workspace/symbol for the exact name of every global and function are requested on a fresh real server; every top-level local, every global and every function not nested in a function body must be in the outline with a well-formed in-file range containing its declaring identifier, and each workspace query must return an entry located at a declaration of that name"
+	c.Rep.Rule = "Scope.tla programs rendered with unique declaration names; documentSymbol of every file and workspace/symbol for the exact name of every global and function are requested on a fresh real server; every top-level local (with and without a <const> attribute), every global and every function (member functions t.f / t:m included) not nested in a function body must be in the outline with a well-formed in-file range containing its declaring identifier, and each workspace query (member functions by their qualified name) must return an entry located at a declaration of that name"
 	c.Rep.Assumptions = []string{
 		"outline names are compared after removing the documented decoration ('local ' prefix, '(params)' suffix)",
-		"method definitions (t.f / t:m) are not part of the generated domain of this check yet (Kinds without meth)",
+		"a member function (function t.f / function t:m) is looked for under its qualified name with either separator, and queried as t.f",
+		"every second never-reassigned local with an initialiser is written with a <const> attribute",
 	}
 	scLight = true
 	scNoOneLine = true
@@ -256,7 +420,8 @@ func checkC19(c *Ctx) {
 		return
 	}
 	p := c.NewPool(0)
-	scKinds = `{"local","local2","use","assign","assign2","do","while","if","repeat","fornum","forin","lfunc","lefunc","gfunc","file"}`
+	scKinds = scAllKinds
+	scCoreKinds = `{"local","use","assign","do","lfunc","lefunc","gfunc","meth"}`
 	scopeRuns(c, p, c19Build, func(j *Job, r *proto.Result) { c19Judge(c, j, r) })
 	c.poolStats(p)
 	if surveyMode {
